@@ -211,9 +211,11 @@ func (conn *Conn) send(call *Call) {
 	seq := conn.seq
 	var isStreaming bool
 	var closeStreaming bool
+	var opening bool
 	if call.upgrade.Stream > 0 {
 		switch call.upgrade.Stream {
 		case openStream:
+			opening = true
 			call.stream.seq = seq
 			conn.streams[seq] = call
 		case streaming:
@@ -230,7 +232,10 @@ func (conn *Conn) send(call *Call) {
 		}
 		conn.pending[seq] = call
 	}
-	conn.mutex.Unlock()
+	// Once the call is registered and the lock released, the reader may
+	// complete it (for example when the peer disconnects) and a blocking
+	// caller may recycle the Call while this send is still running on the
+	// write queue: everything the request needs is taken from the call now.
 	ctx := Context{}
 	ctx.Seq = seq
 	ctx.upgrade = call.upgrade
@@ -240,7 +245,9 @@ func (conn *Conn) send(call *Call) {
 		ctx.Upgrade, _ = call.upgrade.Marshal(upgradeBuffer)
 	}
 	ctx.ServiceMethod = call.ServiceMethod
-	err := conn.codec.WriteRequest(&ctx, call.Args)
+	args := call.Args
+	conn.mutex.Unlock()
+	err := conn.codec.WriteRequest(&ctx, args)
 	if err != nil {
 		conn.mutex.Lock()
 		// Only the path that removes the call from the pending table may
@@ -250,7 +257,7 @@ func (conn *Conn) send(call *Call) {
 			// (a stream message is not registered: the entry under its sequence
 			// number is the stream itself, which has to keep receiving)
 			delete(conn.pending, seq)
-			if call.upgrade.Stream == openStream {
+			if opening {
 				delete(conn.streams, seq)
 			}
 		}
